@@ -54,6 +54,9 @@ impl RocksDBTransaction {
         #[cfg(ckb_verif)]
         {
             let n = crate::verif::before_write("commit");
+            if crate::verif::should_fail(n) {
+                return Err(internal_error("verif: injected commit failure"));
+            }
             let ret = self.inner.commit().map_err(internal_error);
             crate::verif::after_write(n);
             return ret;
